@@ -1,6 +1,7 @@
 package props
 
 import (
+	"runtime"
 	"encoding/json"
 	"fmt"
 	"strconv"
@@ -128,6 +129,8 @@ type c09Case struct {
 	// Order in which the scheme is configured: 0 = open, extend, scores; 1 = extend, open, scores;
 	// 2 = scores, extend, open.  The configured scheme is the last value given to each setter.
 	Order int `json:"setter_order,omitempty"`
+	// Procs: GOMAXPROCS during the alignment (0 = unchanged)
+	Procs int `json:"gomaxprocs,omitempty"`
 }
 
 // c09Configure applies the scheme of the case in the order the case asks for.
@@ -506,6 +509,9 @@ func c09Check(c *mc.Ctx, o *c09Oracle, cs c09Case) {
 		nmatch, nmis, ngap, ln int
 	)
 	if pn, msg := mc.Guard(func() {
+		if cs.Procs > 0 {
+			defer runtime.GOMAXPROCS(runtime.GOMAXPROCS(cs.Procs))
+		}
 		a := align.NewPwAligner(sq1, sq2, align.ALIGN_ALGO_SW)
 		c09Configure(a, &cs, cs.Mode == "mm")
 		al, err = a.Alignment()
@@ -827,6 +833,44 @@ func c09Tasks(tier string) []mc.Task {
 	// lengths (n, m) with n in 7..40 step 3 and m in {n-3, n, n+5}, a sequence of period 5 against a copy with a
 	// substitution every 7th and a deletion at one third, under 3 match/mismatch schemes and the matrix mode;
 	// judged by the same oracle (Gotoh dynamic program; no brute force at these lengths)
+	// (iii-3) gap runs beyond a byte's range and sequences longer than a block of a column-wise parallel fill:
+	// two flanks of 80 around an insert of n residues against the flanks alone (n around 256 and 512), and a
+	// sequence of 571 against itself with 30 residues inserted around multiples of 128; both orientations,
+	// GOMAXPROCS 1, 2, 3, 4, 8; judged by the Gotoh oracle
+	ts = append(ts, mc.Task{Name: "long-gaps", Run: func(c *mc.Ctx) {
+		o := &c09Oracle{}
+		x := uint32(12345)
+		dna := func(n int) string {
+			b := make([]byte, n)
+			for i := range b {
+				x = x*1664525 + 1013904223
+				b[i] = "ACGT"[(x>>24)&3]
+			}
+			return string(b)
+		}
+		run := func(s1, s2 string, procs int) {
+			for _, pr := range [][2]string{{s1, s2}, {s2, s1}} {
+				c09Check(c, o, c09Case{S1: pr[0], S2: pr[1], Mode: "matrix", Open: -10, Extend: -0.5, Procs: procs})
+				c09Check(c, o, c09Case{S1: pr[0], S2: pr[1], Mode: "mm", Match: 5, Mismatch: -4, Open: -4, Extend: -0.25, Procs: procs})
+			}
+		}
+		a, b := dna(80), dna(80)
+		for _, n := range []int{100, 250, 255, 256, 257, 258, 300, 330, 511, 513, 520} {
+			run(a+dna(n)+b, a+b, 0)
+			if c.Expired() {
+				return
+			}
+		}
+		base := dna(571)
+		for _, procs := range []int{1, 2, 3, 4, 8} {
+			for _, at := range []int{100, 120, 128, 250, 256, 300, 384, 500} {
+				run(base[:at]+dna(30)+base[at:], base, procs)
+			}
+			if c.Expired() {
+				return
+			}
+		}
+	}})
 	ts = append(ts, mc.Task{Name: "long-pairs", Run: func(c *mc.Ctx) {
 		o := &c09Oracle{}
 		for n := 7; n <= 40; n += 3 {
